@@ -29,6 +29,8 @@ GROUPS = {
     # 3 nodes run CBMC out of memory (25 GB) on this image: 2 nodes, thorough tier only; clone counts and all larger
     # patterns are engine S's part of C15
     "c15": ([], [K + "c15_consuming_vs_cloning_2"]),
+    # the constants of the derivative rules enter the value type through From<f32> / From<u8>
+    "c18k": ([K + "c18_val_from_consts"], []),
 }
 # value cells: quick = the cells the property texts single out + numeric/error groups of the arithmetic core
 # measured alone on this image: un_minus 146 s, un_abs 135 s, un_to_int 130 s, rem_g0 114 s, div_g0 160 s, eq_g0 118 s, casts 110-138 s;
@@ -86,6 +88,8 @@ def harness_list(groups, tier, cells):
             q, t = GROUPS[g]
             hs += q + (t if tier == "thorough" else [])
         elif g in ("c16", "c17", "c18"):
+            if g == "c18":
+                hs += GROUPS["c18k"][0]
             names = cells["c16_unary"] + cells["c16_scalar"] + cells["c16_array"]
             names = names + cells.get("c17_casts", []) + cells.get("c16_direct", [])
             if g == "c18":
